@@ -76,8 +76,17 @@ def main():
     if ok:
         dst = os.path.join(VERIF, "seeded", args.seed_id)
         os.makedirs(dst, exist_ok=True)
-        shutil.copy(os.path.join(args.src, "patch.diff"), dst)
-        shutil.copy(os.path.join(args.src, "demo.py"), dst)
+        prev = {}
+        if os.path.exists(os.path.join(dst, "meta.json")):
+            prev = json.load(open(os.path.join(dst, "meta.json"))).get("verified", {})
+        if args.skip_suite and "suite_ok" in prev:
+            # the suite was run in an earlier full evaluation of this very patch: carry the result over
+            out["suite_ok"] = prev["suite_ok"]
+            out["suite_failures"] = prev.get("suite_failures")
+            out["suite_run_at_repo_head"] = prev.get("suite_run_at_repo_head", prev.get("repo_head"))
+        for f in ("patch.diff", "demo.py"):
+            if os.path.abspath(os.path.join(args.src, f)) != os.path.abspath(os.path.join(dst, f)):
+                shutil.copy(os.path.join(args.src, f), dst)
         meta["verified"] = out
         meta["what_was_run"] = ("git worktree of /repo HEAD + git apply patch.diff; tools/run_suite.py <worktree> (only the pre-existing "
                                 "failure); tools/run_in_tree.py {/repo,<worktree>} demo.py (exit 0 / 1); harness/check.py <prop> with "
